@@ -154,13 +154,16 @@ def run_batch(crate_dir, target_dir, harnesses, flags=None, rustflags=None, jobs
     return res, out, wall, rc
 
 
-def playback(crate_dir, target_dir, harness, flags=None, rustflags=None, timeout=1800):
+def playback(crate_dir, target_dir, harness, flags=None, rustflags=None, timeout=1800, extra_env=None):
     """Re-run one failing harness with concrete playback; returns list of
     (check description, [byte lists]) — one entry per failed check."""
     cmd = ["cargo", "kani", "--target-dir", target_dir, "--output-format", "terse",
            "-Z", "concrete-playback", "--concrete-playback=print", "--harness", harness]
     cmd += flags or []
-    env = env_offline({"RUSTFLAGS": rustflags} if rustflags else None)
+    envx = dict(extra_env or {})
+    if rustflags:
+        envx["RUSTFLAGS"] = rustflags
+    env = env_offline(envx)
     rc, out, dt = sh(cmd, cwd=crate_dir, env=env, timeout=timeout)
     tests = []
     for m in re.finditer(r"/// Check for `[^`]*`: \"+(.*?)\"+\n(.*?)kani::concrete_playback_run", out, re.S):
